@@ -14,7 +14,8 @@
 
   The plumbing is `ImpFound.Ref` ("the source raises what the model raises, or returns a related value") with its `>>=` /
   `PyRt.forIn` rules.  The generated definitions are unfolded by name; the only generated shape the relations depend on is the
-  order of the components of the loop states.
+  order of the components of the loop states (sorted by variable name by the translator), which is confined to `FSt.pack` / `CSt.pack`,
+  their projections, and the anonymous-constructor patterns that destructure a state.
 -/
 import AgpTpf.Properties.C01ImpFound
 import AgpTpf.Properties.C01ImpCut
@@ -134,12 +135,22 @@ def overlapsOf (input : List Scaffold) (bait : Fragment) : R (Option OverlapResu
 def mkBuild (b0 : Build) (store : List Res) (s : PyRt.SrcNamer) (heap : List Found) (found multi : List (Key × Nat)) : Build :=
   { b0 with store := store, namer := C09.absNamer s, found := C01.absFound heap found, multi := multi.map (·.1) }
 
-/-- the loop state of the translated `find_assembly_overlaps` (both loops) -/
-abbrev FSt := List Res × PyRt.SrcNamer × List Found × List (Key × Nat) × List (Key × Nat)
+/-- the loop state of the translated `find_assembly_overlaps` (both loops).  The translator orders the components by variable name:
+    `(heap_ff, self_found_fragments, self_fragments_found_more_than_once, self_scaffold_namer, store)`.  `FSt.pack` and the
+    projections below are the ONLY place that knows this order: a future permutation needs this block edited, nothing else. -/
+abbrev FSt := List Found × List (Key × Nat) × List (Key × Nat) × PyRt.SrcNamer × List Res
+
+@[reducible] def FSt.pack (store : List Res) (s : PyRt.SrcNamer) (heap : List Found) (found multi : List (Key × Nat)) : FSt :=
+  (heap, found, multi, s, store)
+@[reducible] def FSt.store (st : FSt) : List Res := st.2.2.2.2
+@[reducible] def FSt.namer (st : FSt) : PyRt.SrcNamer := st.2.2.2.1
+@[reducible] def FSt.heap (st : FSt) : List Found := st.1
+@[reducible] def FSt.found (st : FSt) : List (Key × Nat) := st.2.1
+@[reducible] def FSt.multi (st : FSt) : List (Key × Nat) := st.2.2.1
 
 def RelF (b0 : Build) (st : FSt) (b : Build) : Prop :=
-  C09.WfNamer st.2.1 ∧ C01.Coherent st.2.2.1 st.2.2.2.1 st.2.2.2.2 ∧
-  b = mkBuild b0 st.1 st.2.1 st.2.2.1 st.2.2.2.1 st.2.2.2.2
+  C09.WfNamer st.namer ∧ C01.Coherent st.heap st.found st.multi ∧
+  b = mkBuild b0 st.store st.namer st.heap st.found st.multi
 
 /-- what the model does with a result that was found (label, trim, append, register its contigs) -/
 def baitFound (tags : List Str) (name : Str) (b : Build) (bait : Fragment) (o : OverlapResult) : R Build :=
@@ -180,7 +191,7 @@ theorem processBait_eq (input : List Scaffold) (tags : List Str) (name : Str) (b
 /-- a found result: allocated, labelled and trimmed in place, registered -/
 theorem bait_found_ref (b0 : Build) (tags : List Str) (name : Str) (bait : Fragment) (o : OverlapResult)
     (store : List Res) (s : PyRt.SrcNamer) (heap : List Found) (found multi : List (Key × Nat)) (b : Build)
-    (h : RelF b0 (store, s, heap, found, multi) b)
+    (h : RelF b0 (FSt.pack store s heap found multi) b)
     {ρ : Type} (body : R (PyRt.Ctl FSt ρ))
     (hbody : body =
       (Gen.Imp.ScaffoldNamer_label_scaffold (store ++ [{ o := o, added := false }]) s store.length bait tags name) >>= fun nk4 =>
@@ -188,9 +199,9 @@ theorem bait_found_ref (b0 : Build) (tags : List Str) (name : Str) (bait : Fragm
       (if (!((getRes (PyRt.updRes nk4.2 store.length mu5) store.length).rows).isEmpty) = true then
           (Gen.Imp.BuildAssembly_store_fragments_found (PyRt.markAdded (PyRt.updRes nk4.2 store.length mu5) store.length) heap found multi
               store.length) >>= fun sf6 =>
-          .ok (sf6.1, sf6.2.1, nk4.1, sf6.2.2.1, sf6.2.2.2)
-        else .ok (PyRt.updRes nk4.2 store.length mu5, heap, nk4.1, found, multi)) >>= fun j7 =>
-      .ok (.next (j7.1, j7.2.2.1, j7.2.1, j7.2.2.2.1, j7.2.2.2.2))) :
+          .ok (FSt.pack sf6.1 nk4.1 sf6.2.1 sf6.2.2.1 sf6.2.2.2)
+        else .ok (FSt.pack (PyRt.updRes nk4.2 store.length mu5) nk4.1 heap found multi)) >>= fun (j7 : FSt) =>
+      .ok (.next (FSt.pack j7.store j7.namer j7.heap j7.found j7.multi))) :
     Ref (nextRel (RelF b0)) body (baitFound tags name b bait o) := by
   obtain ⟨hw, hc, rfl⟩ := h
   subst hbody
@@ -226,33 +237,33 @@ theorem bait_found_ref (b0 : Build) (tags : List Str) (name : Str) (bait : Fragm
 
 /-- what `find_assembly_overlaps_refines` says about the pair (source result, model result) -/
 def FindQ (b0 : Build) (t : List Res × List Found × PyRt.SrcNamer × List (Key × Nat) × List (Key × Nat)) (b' : Build) : Prop :=
-  RelF b0 (t.1, t.2.2.1, t.2.1, t.2.2.2.1, t.2.2.2.2) b'
+  RelF b0 (FSt.pack t.1 t.2.2.1 t.2.1 t.2.2.2.1 t.2.2.2.2) b'
 
 theorem find_tie (input ptx : List Scaffold) (b0 : Build) (fo : Fragment → R (Option OverlapResult))
     (hfo : ∀ bait, fo bait = overlapsOf input bait)
     (store : List Res) (s : PyRt.SrcNamer) (heap : List Found) (found multi : List (Key × Nat)) (b : Build)
-    (h : RelF b0 (store, s, heap, found, multi) b) :
+    (h : RelF b0 (FSt.pack store s heap found multi) b) :
     Ref (FindQ b0) (Gen.Imp.BuildAssembly_find_assembly_overlaps store heap s found multi ptx b0.err fo)
       (findAssemblyOverlaps input ptx b) := by
   unfold Gen.Imp.BuildAssembly_find_assembly_overlaps findAssemblyOverlaps
   dsimp only
   refine forIn_bind_ok (RelF b0) ?step h ?fin
   case fin =>
-    rintro ⟨store', s', heap', found', multi'⟩ b' hr
+    rintro ⟨heap', found', multi', s', store'⟩ b' hr
     exact Ref.ok hr
   case step =>
-    rintro ps - ⟨store, s, heap, found, multi⟩ b ⟨hw, hc, rfl⟩
+    rintro ps - ⟨heap, found, multi, s, store⟩ b ⟨hw, hc, rfl⟩
     dsimp only at hw hc ⊢
     refine Ref.bind (make_name_ref s ps hw) ?_
     rintro s1 n ⟨rfl, hw1⟩
     refine forIn_bind (RelF b0) ?bait ⟨hw1, hc, rfl⟩ ?after
     case after =>
-      rintro ⟨store', s', heap', found', multi'⟩ b' ⟨hw', hc', rfl⟩
+      rintro ⟨heap', found', multi', s', store'⟩ b' ⟨hw', hc', rfl⟩
       dsimp only at hw' hc' ⊢
       rw [rename_unlocs_eq]
       exact Ref.ok ⟨_, rfl, hw', hc', rfl⟩
     case bait =>
-      rintro bait - ⟨store, s, heap, found, multi⟩ b hr
+      rintro bait - ⟨heap, found, multi, s, store⟩ b hr
       rw [processBait_eq, hfo]
       dsimp only
       cases overlapsOf input bait with
@@ -266,12 +277,21 @@ theorem find_tie (input ptx : List Scaffold) (b0 : Build) (fo : Fragment → R (
 
 /-! ### 5. `cut_remaining_overhangs` -/
 
-/-- the loop state of the translated `cut_remaining_overhangs`: `(store, heap, multi, nextOid, cuts)`; the arena and `multi` are not
-    touched by the loop -/
-abbrev CSt := List Res × List Found × List (Key × Nat) × Nat × Int
+/-- the loop state of the translated `cut_remaining_overhangs`, components ordered by variable name:
+    `(heap_ff, nextOid, self_assembly_stats_cuts, self_fragments_found_more_than_once, store)`; the arena and `multi` are not touched
+    by the loop.  `CSt.pack` and the projections are the only place that knows the order. -/
+abbrev CSt := List Found × Nat × Int × List (Key × Nat) × List Res
+
+@[reducible] def CSt.pack (store : List Res) (heap : List Found) (multi : List (Key × Nat)) (oid : Nat) (cuts : Int) : CSt :=
+  (heap, oid, cuts, multi, store)
+@[reducible] def CSt.store (st : CSt) : List Res := st.2.2.2.2
+@[reducible] def CSt.heap (st : CSt) : List Found := st.1
+@[reducible] def CSt.multi (st : CSt) : List (Key × Nat) := st.2.2.2.1
+@[reducible] def CSt.oid (st : CSt) : Nat := st.2.1
+@[reducible] def CSt.cuts (st : CSt) : Int := st.2.2.1
 
 def RelC (b0 : Build) (heap : List Found) (multi : List (Key × Nat)) (st : CSt) (b : Build) : Prop :=
-  st.2.1 = heap ∧ st.2.2.1 = multi ∧ b = { b0 with store := st.1, nextOid := st.2.2.2.1, cuts := st.2.2.2.2 }
+  st.heap = heap ∧ st.multi = multi ∧ b = { b0 with store := st.store, nextOid := st.oid, cuts := st.cuts }
 
 /-- what `cut_remaining_refines` says about the pair (source result, model result) -/
 def CutQ (b0 : Build) (heap : List Found) (t : List Res × Nat × List Found × List (Key × Nat) × Int) (b' : Build) : Prop :=
@@ -285,10 +305,10 @@ theorem cut_tie (b : Build) (heap : List Found) (found multi : List (Key × Nat)
   rw [hm, List.foldlM_map, forIn_map]
   refine forIn_bind (RelC b heap multi) ?step ⟨rfl, rfl, rfl⟩ ?fin
   case fin =>
-    rintro ⟨store', heap', multi', oid', cuts'⟩ b' ⟨rfl, rfl, rfl⟩
+    rintro ⟨heap', oid', cuts', multi', store'⟩ b' ⟨rfl, rfl, rfl⟩
     exact Ref.ok ⟨rfl, rfl⟩
   case step =>
-    rintro kv hkv ⟨store', heap', multi', oid', cuts'⟩ b' ⟨rfl, rfl, rfl⟩
+    rintro kv hkv ⟨heap', oid', cuts', multi', store'⟩ b' ⟨rfl, rfl, rfl⟩
     dsimp only
     have hg : dGet? b.found kv.1 = some (PyRt.getFound heap' kv.2) := by
       rw [hf]
@@ -505,7 +525,7 @@ theorem missing_ref (input : List Scaffold) (b : Build) (g : Gap) (hg : b.joinGa
 theorem phase1_tie (input ptx : List Scaffold) (b0 : Build) (g : Gap) (hg : b0.joinGap = some g)
     (fo : Fragment → R (Option OverlapResult)) (hfo : ∀ bait, fo bait = overlapsOf input bait)
     (s : PyRt.SrcNamer) (heap : List Found) (found multi : List (Key × Nat))
-    (h : RelF b0 (b0.store, s, heap, found, multi) b0) (fuel : Nat) (hfuel : FuelOk input ptx b0 fuel) :
+    (h : RelF b0 (FSt.pack b0.store s heap found multi) b0) (fuel : Nat) (hfuel : FuelOk input ptx b0 fuel) :
     Ref (RemapQ b0)
       (Gen.Imp.BuildAssembly_remap_to_input_assembly fuel b0.store b0.nextOid heap s found multi b0.cuts ptx input b0.err g fo)
       (phase1 input ptx b0) := by
